@@ -339,6 +339,35 @@ def gen_C14(tier, seed):
         p.write(101, route='dict', fname='fresh.dlis', **kw2f)
         p.meta['what'] = what
         progs.append(p.build())
+    # two logical files; after a first write the second one receives objects of classes only the first had, in another order:
+    # the sets come out in the order of the calls, as in a process that never wrote before
+    orders = [('zone', 'parameter'), ('parameter', 'zone'), ('tool', 'equipment', 'zone'), ('axis', 'comment', 'message', 'zone')]
+    for i, late in enumerate(orders):
+        p = Prog(f'C14-lateobjects-{i}', {'kind': 'lateobjects'})
+        for fid in (1, 101):
+            if fid == 101:
+                p.next_proc(fresh=True)
+            p.file(fid, vrl=512)
+            lfs = []
+            for k in range(2):
+                lf = p.lf(fid, lf=fid * 10 + k, fh_id=f'LF-{k}', fh_seq=k + 1)
+                sn = f'SET-{k}'
+                p.origin(lf, name=f'O{k}', fsn=k + 1, set_name=sn)
+                c = p.channel(lf, f'CH{k}', data=np.arange(3, dtype='float64'), set_name=sn)
+                p.frame(lf, f'FR{k}', [c], set_name=sn)
+                lfs.append((lf, sn))
+            # the first logical file has the classes in one order ...
+            for cls in sorted(set(late)):
+                p.add(lfs[0][0], cls, f'FIRST-{cls}'.upper(), set_name=lfs[0][1])
+            if fid == 1:
+                p.write(fid, fname='first.dlis')
+                if i % 2:
+                    p.write(fid, fname='first-again.dlis')
+            # ... the second one gets them later, in another order
+            for cls in late:
+                p.add(lfs[1][0], cls, f'LATE-{cls}'.upper(), set_name=lfs[1][1])
+            p.write(fid, fname='second.dlis' if fid == 1 else 'fresh.dlis')
+        progs.append(p.build())
     # frame index metadata derived at an earlier write (a NaN in the index; bounds the user then pins to the very values
     # derived before): the next file is the one a fresh process writes
     for i in range(8 if tier == 'quick' else 48):
@@ -378,7 +407,7 @@ def gen_C17(tier, seed):
     rng = rng_for('C17', tier, seed)
     progs = []
     breaches = ['none', 'objname', 'chname', 'setid', 'hdrid', 'signed', 'noframe', 'twoframes', 'nonuniform', 'nonuniform-spacing',
-                'nonuniform-minmax', 'units', 'indextype', 'eqtype', 'eqloc']
+                'nonuniform-minmax', 'nonuniform-dec', 'nonuniform-dec-u16', 'nonuniform-jitter', 'units', 'indextype', 'eqtype', 'eqloc']
     patterns = ['inside', 'outside', 'nested', 'after-exc', 'decorator', 'after-exit']
     k = 0
     for b in breaches:
@@ -409,6 +438,12 @@ def gen_C17(tier, seed):
             lf = q.lf(1, fh_id='header with spaces' if b == 'hdrid' else 'HEADER-1')
             q.origin(lf, name='ORIGIN-1')
             idx = (np.array([0, 1, 5, 6]) if b.startswith('nonuniform') else np.arange(4)).astype('float64')
+            if b == 'nonuniform-dec':
+                idx = np.array([20, 17, 16, 12], dtype='float64')
+            elif b == 'nonuniform-dec-u16':
+                idx = np.array([900, 700, 650, 100], dtype='uint16')
+            elif b == 'nonuniform-jitter':
+                idx = np.array([40, 30, 19, 10], dtype='float64')
             c1 = q.channel(lf, 'DEPTH', data=idx, units=(S('furlongs') if b == 'units' else EN('Unit', 'METER')))
             c2 = q.channel(lf, 'chan lower' if b == 'chname' else 'VALUES',
                            data=rand_array(rng, 'int16' if b == 'signed' else 'uint16', 4))
@@ -432,7 +467,8 @@ def gen_C17(tier, seed):
                 q.add(lf, 'equipment', 'EQ-1', eq_type=S('Gizmo') if b == 'eqtype' else EN('EquipmentType', 'CABLE'),
                       location=S('Moon') if b == 'eqloc' else EN('EquipmentLocation', 'RIG'))
             q.write(1, valid=(b == 'none' or not inside),
-                    hc_breach=(b if (b in ('signed', 'noframe', 'twoframes', 'nonuniform', 'nonuniform-spacing', 'nonuniform-minmax') and inside) else ''))
+                    hc_breach=(b if (b in ('signed', 'noframe', 'twoframes', 'nonuniform', 'nonuniform-spacing', 'nonuniform-minmax',
+                                           'nonuniform-dec', 'nonuniform-dec-u16', 'nonuniform-jitter') and inside) else ''))
             if pat == 'decorator':
                 p.steps.append({'op': 'hc_decorated', 'steps': q.steps, 'raise_inside': rng.random() < 0.5})
             else:
